@@ -341,24 +341,30 @@ Proof.
     { simpl. apply unload_frame; auto. fold t0 r0. rewrite <- E2. apply frameP_refl; auto. }
     pose proof (neo_state_frame cid to amt _ _ _ E1) as F3. rewrite E2 in F3.
     set (d1 := sval _ (kClaim cid)). set (d2 := neo_d2 cid to amt _).
-    assert (MINT : forall s4, frameP t0 r0 (ntf s) s4 -> frameP t0 r0 (ntf s) (mint_state to d2 (mint_state cid d1 s4))).
-    { intros s4 F4. eapply frameP_trans; [exact F4|]. intros t1 r1 L1.
-      eapply frameP_trans; [apply mint_state_frame; exact L1|]. intros t2 r2 L2. apply mint_state_frame; exact L2. }
+    assert (MINT1 : forall s4, frameP t0 r0 (ntf s) s4 -> frameP t0 r0 (ntf s) (mint_state cid d1 s4)).
+    { intros s4 F4. eapply frameP_trans; [exact F4|]. intros t1 r1 L1. apply mint_state_frame; exact L1. }
+    assert (MINT2 : forall s4, frameP t0 r0 (ntf s) s4 -> frameP t0 r0 (ntf s) (mint_state to d2 (mint_state cid d1 s4))).
+    { intros s4 F4. eapply frameP_trans; [exact (MINT1 s4 F4)|]. intros t1 r1 L1. apply mint_state_frame; exact L1. }
+    assert (TAIL : forall (s4 : mstate) (c1 c2 : bool), frameP t0 r0 (ntf s) s4 ->
+              frame_res t rest (ntf s)
+                (if c1 then Fault (mark true s4)
+                 else if c2 then Fault (mark true (mint_state cid d1 s4))
+                 else Normal (leave w (length (ntf s)) (mint_state to d2 (mint_state cid d1 s4))))).
+    { intros s4 c1 c2 F4. destruct c1; [|destruct c2]; simpl.
+      - eapply unload_below. eapply frame_below. exact F4.
+      - eapply unload_below. eapply frame_below. exact (MINT1 s4 F4).
+      - apply unload_frame; auto. }
     case_if.
     + pose proof F3 as F3'. destruct F3 as (t3 & r3 & new3 & newn3 & G1 & G2 & G3 & G4).
       pose proof (IHcb to fAll false _ _ _ G1) as B.
       assert (TR : forall s4, frameP t3 r3 (ntf (neo_state cid to amt (enter w s))) s4 -> frameP t0 r0 (ntf s) s4).
       { intros s4 F4. eapply frameP_trans; [exact F3'|]. intros t1 rest1 L1. rewrite G1 in L1. inv L1. exact F4. }
       destruct (exec pol cb to fAll false _) as [s4|s4|s4]; simpl in B.
-      * case_if; simpl.
-        -- eapply unload_below. eapply frame_below. apply TR. exact B.
-        -- apply unload_frame; auto.
+      * apply TAIL. apply TR. exact B.
       * eapply unload_below. eapply frame_below. apply TR. exact B.
       * eapply unload_below. eapply frame_below_trans; [exact F3'|].
         intros t1 rest1 L1. rewrite G1 in L1. inv L1. exact B.
-    + case_if; simpl.
-      * eapply unload_below. eapply frame_below. exact F3.
-      * apply unload_frame; auto.
+    + apply TAIL. exact F3.
   - (* SetFee *)
     case_if; simpl; [|eapply below_self; eauto].
     set (w := wrapped it cf).
